@@ -17,11 +17,12 @@
    what an untouched terminal cell shows, and the faces the renderer erases with EraseChars
    ([erasable]) are faces whose erased cells look like printed spaces.
 
-   Counted theorems (15): C01_show_is_denotation, C01_show_no_orphan, C01_history (main),
-   C01_history_final, C01_history_resumes, C01_scratch, C01_forced, C01_clear_then_frame,
+   Counted theorems (16): C01_show_is_denotation, C01_show_no_orphan, C01_history (main),
+   C01_history_final, C01_history_resumes, C01_scratch, C01_forced, C01_forced_history, C01_clear_then_frame,
    C01_idle_frame, C01_render_loop, C01_render_loop_exact; witnesses of the known classes:
    C01_overlap_images_refuted, C01_overlap_wide_image_refuted, C01_overlap_wide_image_no_picture,
-   C01_dropped_image_erase_refuted.  Not counted: Lemmas den_not_orphan, ex_oracle_ok, ex_good and
+   C01_dropped_image_erase_refuted.  Outside the theorems, inside the correspondence run: aborted
+   frames (op FailFrame: frame() returned Err).  Not counted: Lemmas den_not_orphan, ex_oracle_ok, ex_good and
    nine [_nonvacuous] Examples (one per theorem with hypotheses).
    Spec decision: clear(), a new renderer and a resize reset the surface being drawn. *)
 From Coq Require Import List NArith Bool Arith.
@@ -136,6 +137,20 @@ Theorem C01_forced : forall o h w s scr,
   /\ forall i r c, In (i, r, c) (places scr') <->
                    (In (i, r, c) (places scr) \/ In (i, r, c) (places (show o h w s))).
 Proof. exact forced_repaint. Qed.
+
+(* a renderer re-created with new(term, true) WITHOUT a clear() before it (the old renderer is just dropped),
+   on a terminal in any state [scr] - any cells, any placements, e.g. what the old renderer left: every
+   history from there is judged as in C01_history_resumes, and the terminal never places anything besides
+   the drawn images and the placements it had at the start (which nobody can erase any more: it is
+   run_render's clear() before the re-creation that avoids them, see the Resize events of C01_render_loop) *)
+Theorem C01_forced_history : forall o h w scr ops,
+  oracle_ok o -> scr_ok scr h w -> dom_ops o h w ops ->
+  resume_run o h w scr (gmake h w cell_default) (Some (places scr)) ops (rrun o (rnew h w true) ops) = true.
+Proof.
+  intros o h w scr ops Hok Hs Hdom.
+  apply (history_resume_run o ops h w (rnew h w true) scr (Some (places scr)) Hok); auto.
+  split; [exact (hinv_fresh o h w scr Hok Hs)|]. apply front_ok_blank; [apply Hok|reflexivity].
+Qed.
 
 (* clear() forces a repaint from any terminal state: clear(), the application draws S, frame() on an
    arbitrary screen gives the grid of show S (clear() also resets the surface: it is called before
